@@ -336,8 +336,16 @@ def rvalue(env, rv):
     if k == "use":
         return operand(env, rv["op"])
     if k == "ref" or k == "rawptr":
+        pl_ = rv["place"]
+        if POINTERS and pl_.get("proj") and all(e_["k"] == "deref" for e_ in pl_["proj"]) and isinstance(env.get(pl_["local"]), Ptr):
+            return env[pl_["local"]]                   # a reborrow `&mut *p` of a pointer is that pointer
         v = read_place(env, rv["place"])
         if POINTERS and (v is UNKNOWN or isinstance(v, (int, bool, str)) or v is None) and not isinstance(v, Ptr):
+            return Ptr(env, rv["place"])
+        if POINTERS and rv.get("mut") and rv["place"].get("proj") and rv["place"]["proj"][-1]["k"] == "field" and \
+                not isinstance(v, (Ptr, Enum, list, tuple)) and \
+                type(v).__name__ in ("T", "Tok", "Val", "V", "Frame"):
+            # `&mut x.field` where the field holds an opaque token of a client table: the place can be overwritten (mem::swap / replace)
             return Ptr(env, rv["place"])
         return v
     if k == "cast":
